@@ -127,6 +127,28 @@ def r2_map_unmap(r, facts):
                         ok_t = vals.get(0) if de[1] == 'Eq' else vals.get(1, tt['otherwise'])
                         start = Loc(ok_t, 0)
                 ptr_expr_pred = lambda e: any(x[0] == 'call' and x[1] == 'libc::mmap' for x in subexprs(e))
+            if start is None and kind == 'libc::mmap':
+                # the result is tested, but not against MAP_FAILED ((void *) -1): a null test never fires for mmap
+                nulltest = None
+                for l2, t2 in f.calls():
+                    n2 = t2.get('callee') or ''
+                    if (n2.endswith('NonNull::<T>::new') or n2.endswith('::is_null')) and t2['args'] and ptr_expr_pred(eb.operand(t2['args'][0])):
+                        nulltest = (l2, n2)
+                for b, blk in enumerate(f.blocks):
+                    tt = blk['term']
+                    if tt['k'] == 'switch' and not blk['cleanup']:
+                        de = eb.operand(tt['discr'])
+                        def _is_ptr(x):
+                            while x[0] == 'cast':
+                                x = x[-1] if isinstance(x[-1], tuple) else x[2]
+                            return x[0] == 'call' and x[1] == 'libc::mmap'
+                        if nulltest is None and de[0] == 'bin' and de[1] in ('Eq', 'Ne') and any(_is_ptr(x) for x in (de[2], de[3])) \
+                                and not any(x[0] == 'const' and ('0xffffffffffffffff' in str(x[2]) or 'MAP_FAILED' in str(x[2])) for x in (de[2], de[3])):
+                            nulltest = (f.term_loc(b), str(de)[:80])
+                if nulltest is not None:
+                    r.inst('mapping #%d in %s: failure test' % (idx, name), f.where(loc))
+                    r.bad('%s/map%d-failure-test' % (name, idx), 'the result of libc::mmap is tested with %s, not against MAP_FAILED ((void *) -1): a refused mapping is taken for a valid address and a half-mapped ring escapes' % (nulltest[1],), f.where(nulltest[0]))
+                    continue
             if not r.require(start is not None, '%s/map%d' % (name, idx), 'success edge of the mapping not found', f.where(loc)):
                 continue
             # releasing / transferring sites for this mapping
@@ -372,6 +394,39 @@ def config_guards(f, eb, loc):
     return out
 
 
+def ring_lengths(r, facts, modes=True, floor=2, sq=True, cq=True):
+    """The lengths (hence the index masks) the library uses are the sizes the kernel granted: Shared.submissions_len is
+    params.sq_entries, Completions.entries_len is params.cq_entries (a ring built with a larger completion queue would
+    otherwise wrap at the wrong place: completions replayed / skipped)."""
+    # Shared::new derives modes from the echoed flags
+    n = facts.fn(SHARED_NEW)
+    en = ExprBuilder(n, multi='phi')
+    for loc, s in n.assigns():
+        rv = s['rv']
+        if rv['k'] == 'agg' and rv.get('adt') == 'io_uring::Shared':
+            fm = dict(zip(rv['fields'], [en.operand(o) for o in rv['ops']]))
+            for fld, flag in (() if not modes else (('kernel_thread', 'IORING_SETUP_SQPOLL'), ('single_issuer', 'IORING_SETUP_SINGLE_ISSUER'))):
+                e = fm.get(fld)
+                ok = e is not None and any(x[0] == 'const' and str(x[2]).endswith(flag) for x in subexprs(e)) and any(fam.last_field(x) == 'flags' for x in subexprs(e))
+                r.inst('Shared.%s = %s' % (fld, e), n.where(loc))
+                r.require(ok, 'Shared::new/%s' % fld, 'Shared.%s is not derived from parameters.flags & %s' % (fld, flag), n.where(loc))
+            if not sq:
+                continue
+            e = fm.get('submissions_len')
+            r.inst('Shared.submissions_len = %s' % (e,), n.where(loc))
+            r.require(e is not None and fam.last_field(e) == 'sq_entries', 'Shared::new/submissions_len', 'submissions_len is not the granted sq_entries', n.where(loc))
+    c = facts.fn(CQ_NEW)
+    ec = ExprBuilder(c, multi='phi')
+    for loc, s in (c.assigns() if cq else ()):
+        rv = s['rv']
+        if rv['k'] == 'agg' and rv.get('adt') == 'io_uring::cq::Completions':
+            fm = dict(zip(rv['fields'], [ec.operand(o) for o in rv['ops']]))
+            e = fm.get('entries_len')
+            r.inst('Completions.entries_len = %s' % (e,), c.where(loc))
+            r.require(e is not None and fam.last_field(e) == 'cq_entries', 'Completions::new/entries_len', 'entries_len is not the granted cq_entries', c.where(loc))
+    r.floor(floor)
+
+
 def r4_config_coverage(r, facts):
     f = facts.fn(BUILD_SYS)
     eb = ExprBuilder(f, multi='phi')
@@ -508,30 +563,7 @@ def r4_config_coverage(r, facts):
     if setup:
         a0 = eb.operand(setup[0][1]['args'][0])
         r.require(fam.last_field(a0) == 'sq_entries', 'config:setup-entries', 'io_uring_setup is not given parameters.sq_entries: %s' % (a0,), f.where(setup[0][0]))
-    # coop taskrun only without kernel thread (mutually exclusive in the kernel)
-    # Shared::new derives modes from the echoed flags
-    n = facts.fn(SHARED_NEW)
-    en = ExprBuilder(n, multi='phi')
-    for loc, s in n.assigns():
-        rv = s['rv']
-        if rv['k'] == 'agg' and rv.get('adt') == 'io_uring::Shared':
-            fm = dict(zip(rv['fields'], [en.operand(o) for o in rv['ops']]))
-            for fld, flag in (('kernel_thread', 'IORING_SETUP_SQPOLL'), ('single_issuer', 'IORING_SETUP_SINGLE_ISSUER')):
-                e = fm.get(fld)
-                ok = e is not None and any(x[0] == 'const' and str(x[2]).endswith(flag) for x in subexprs(e)) and any(fam.last_field(x) == 'flags' for x in subexprs(e))
-                r.inst('Shared.%s = %s' % (fld, e), n.where(loc))
-                r.require(ok, 'Shared::new/%s' % fld, 'Shared.%s is not derived from parameters.flags & %s' % (fld, flag), n.where(loc))
-            e = fm.get('submissions_len')
-            r.require(e is not None and fam.last_field(e) == 'sq_entries', 'Shared::new/submissions_len', 'submissions_len is not the granted sq_entries', n.where(loc))
-    c = facts.fn(CQ_NEW)
-    ec = ExprBuilder(c, multi='phi')
-    for loc, s in c.assigns():
-        rv = s['rv']
-        if rv['k'] == 'agg' and rv.get('adt') == 'io_uring::cq::Completions':
-            fm = dict(zip(rv['fields'], [ec.operand(o) for o in rv['ops']]))
-            e = fm.get('entries_len')
-            r.inst('Completions.entries_len = %s' % (e,), c.where(loc))
-            r.require(e is not None and fam.last_field(e) == 'cq_entries', 'Completions::new/entries_len', 'entries_len is not the granted cq_entries', c.where(loc))
+    ring_lengths(r, facts, floor=0)
     r.floor(12)
 
 
